@@ -573,7 +573,17 @@ def unknownAlignment (tk : Tokenizer Score) (ps : List TextPart) (ids : List Id)
     (match c.fallback.head?, c.unknown, c.eow with
       | some .unknown, some u, none => run u (fun b => (c.tok b).isSome) (if c.chars then charLen else fun _ => 1)
       | _, _, _ => none)
-  | .wordpiece _ => none
+  | .wordpiece c =>
+    -- the unknown id stands for a whole word: it may only replace a word that the greedy longest-match
+    -- specification (C05) cannot encode
+    let expected := ps.mapM fun (p : TextPart) =>
+      if p.special != INVALID then some [p.special]
+      else match Spec.wordSpec c p.text with
+        | .ok e => some e
+        | _ => none
+    match expected with
+    | some l => some (if l.flatten == ids then "HOLDS" else "FAILS encodable-word-replaced-or-misspelled")
+    | none => none
 
 def padIds (tk : Tokenizer Score) : List Id :=
   tk.config.processing.filterMap fun | .pad id _ _ _ => some id | _ => none
